@@ -265,7 +265,8 @@ func genC10(ctx *Ctx) []Case {
 	var cases []Case
 	sampleN := map[string]int{}
 	// quick tier keeps every k-th case of the big tables (k per tag); thorough keeps all
-	sampleK := map[string]int{"fetch-table": 2, "push-table": 4, "pull-table": 6, "fetch-xkind": 8, "push-xkind": 8}
+	sampleK := map[string]int{"fetch-table": 2, "push-table": 4, "pull-table": 6, "fetch-xkind": 8, "push-xkind": 8,
+		"shared-new-fetch": 12, "shared-new-push": 16, "shared-new-pull": 6, "shared-old-fetch": 12, "shared-old-push": 12}
 	add := func(tag string, c *c10Case) {
 		if k, ok := sampleK[tag]; ok && !ctx.Thorough() {
 			sampleN[tag]++
@@ -420,6 +421,172 @@ func genC10(ctx *Ctx) []Case {
 								add("push-xkind", c)
 							}
 						}
+					}
+				}
+			}
+		}
+	}
+	// ---- several refs of ONE invocation share a commit: every destination receives the same new commit S but
+	// holds a different old value (and the converse: one old value, different new commits).  Each ref must be
+	// judged on its own old/new pair (C10_frame), in whatever order the command processes them: the relations are
+	// assigned to the names a < b < c < ... in every rotation and its reverse, and in every ordered pair.
+	{
+		type relv struct {
+			name string
+			val  int // -1 = the ref does not exist
+		}
+		// same-new: S and the old values; same-old: O and the new values
+		sameNew := []struct {
+			S    int
+			olds []relv
+		}{
+			{6, []relv{{"ancestor", 1}, {"diverged", 4}, {"unrelated", 7}, {"equal", 6}, {"absent", -1}}},
+			{2, []relv{{"ancestor", 1}, {"diverged", 4}, {"ahead", 6}, {"equal", 2}, {"absent", -1}}},
+		}
+		sameOld := []struct {
+			O    int
+			news []relv
+		}{
+			{2, []relv{{"descendant", 6}, {"diverged", 4}, {"unrelated", 7}, {"equal", 2}, {"behind", 1}}},
+		}
+		names := []string{"a", "b", "c", "d", "e"}
+		// orders: all rotations and reversed rotations of 5 relations, then every ordered pair, then triples
+		var orders [][]int
+		for r := 0; r < 5; r++ {
+			fw, bw := []int{}, []int{}
+			for i := 0; i < 5; i++ {
+				fw = append(fw, (r+i)%5)
+				bw = append(bw, (r+5-i)%5)
+			}
+			orders = append(orders, fw[:4], bw[:4])
+		}
+		for i := 0; i < 5; i++ {
+			for j := 0; j < 5; j++ {
+				if i != j {
+					orders = append(orders, []int{i, j})
+					orders = append(orders, []int{i, j, (i + j + 1) % 5})
+				}
+			}
+		}
+		build := func(kind int, newOf, oldOf []int, rfs []bool, gf bool, exact bool) *c10Case {
+			c := c10NewCase(0)
+			c.Kind = kind
+			c.GForce = gf
+			for i := range newOf {
+				nm := names[i]
+				switch kind {
+				case 0, 3:
+					c.RRefs = append(c.RRefs, [2]interface{}{"heads/" + nm, newOf[i]})
+					if oldOf[i] >= 0 {
+						c.LRefs = append(c.LRefs, [2]interface{}{"remotes/origin/" + nm, oldOf[i]})
+					}
+					if exact || kind == 3 {
+						c.Specs = append(c.Specs, c10Spec{rfs[i], false, "heads/" + nm, "remotes/origin/" + nm})
+					}
+				case 1:
+					c.LRefs = append(c.LRefs, [2]interface{}{"heads/" + nm, newOf[i]})
+					if oldOf[i] >= 0 {
+						c.RRefs = append(c.RRefs, [2]interface{}{"heads/" + nm, oldOf[i]})
+					}
+					c.Items = append(c.Items, c10PItem{rfs[i], "heads/" + nm, "heads/" + nm})
+				}
+			}
+			if kind == 0 && !exact {
+				c.Specs = []c10Spec{{rfs[0], true, "heads/", "remotes/origin/"}}
+			}
+			c.LRefs = append(c.LRefs, [2]interface{}{"heads/keep", 1})
+			return c
+		}
+		// always-run witnesses: the fast-forwardable ref sorts first, the diverged one second (and the reverse)
+		for _, ord := range [][]int{{0, 1}, {1, 0}, {0, 2, 1}} {
+			sn := sameNew[0]
+			newOf, oldOf := []int{}, []int{}
+			for _, r := range ord {
+				newOf = append(newOf, sn.S)
+				oldOf = append(oldOf, sn.olds[r].val)
+			}
+			rfs := make([]bool, len(ord))
+			for _, kind := range []int{0, 1} {
+				for _, exact := range bools {
+					if kind == 1 && !exact {
+						continue
+					}
+					c := build(kind, newOf, oldOf, rfs, false, exact)
+					c.closeHave()
+					add("shared-new-witness", c)
+				}
+			}
+			if len(ord) == 2 {
+				c := build(3, newOf, oldOf, rfs, false, true)
+				c.Branch = "b"
+				c.LRefs = append(c.LRefs, [2]interface{}{"heads/b", 1})
+				c.addMerge(6, 6)
+				c.closeHave()
+				add("shared-new-witness", c)
+			}
+		}
+		for oi, ord := range orders {
+			for _, gf := range bools {
+				for variant := 0; variant < 3; variant++ {
+					// variant 0: no per-ref force; 1: '+' on the first ref only (must not leak to the others);
+					// 2: '+' on the last ref only
+					rfs := make([]bool, len(ord))
+					if variant == 1 {
+						rfs[0] = true
+					} else if variant == 2 {
+						rfs[len(ord)-1] = true
+					}
+					for _, sn := range sameNew {
+						newOf, oldOf := []int{}, []int{}
+						for _, r := range ord {
+							newOf = append(newOf, sn.S)
+							oldOf = append(oldOf, sn.olds[r].val)
+						}
+						// fetch through one glob refspec (variant 0 / 1 = '+' on the glob) and through exact refspecs
+						if variant < 2 {
+							c := build(0, newOf, oldOf, rfs, gf, false)
+							c.closeHave()
+							add("shared-new-fetch", c)
+						}
+						c := build(0, newOf, oldOf, rfs, gf, true)
+						c.closeHave()
+						add("shared-new-fetch", c)
+						c = build(1, newOf, oldOf, rfs, gf, true)
+						c.closeHave()
+						add("shared-new-push", c)
+						// push in the reverse argument order as well (identifyUpdates follows the arguments)
+						c = build(1, newOf, oldOf, rfs, gf, true)
+						for i, j := 0, len(c.Items)-1; i < j; i, j = i+1, j-1 {
+							c.Items[i], c.Items[j] = c.Items[j], c.Items[i]
+						}
+						c.closeHave()
+						add("shared-new-push", c)
+						// pull: two refspecs, the branch an ancestor of S (or S itself every other time)
+						if len(ord) == 2 && sn.S == 6 {
+							c = build(3, newOf, oldOf, rfs, gf, true)
+							c.Branch = "b"
+							bv := 1
+							if oi%2 == 1 {
+								bv = 6
+							}
+							c.LRefs = append(c.LRefs, [2]interface{}{"heads/b", bv})
+							c.addMerge(6, 6)
+							c.closeHave()
+							add("shared-new-pull", c)
+						}
+					}
+					for _, so := range sameOld {
+						newOf, oldOf := []int{}, []int{}
+						for _, r := range ord {
+							newOf = append(newOf, so.news[r].val)
+							oldOf = append(oldOf, so.O)
+						}
+						c := build(0, newOf, oldOf, rfs, gf, true)
+						c.closeHave()
+						add("shared-old-fetch", c)
+						c = build(1, newOf, oldOf, rfs, gf, true)
+						c.closeHave()
+						add("shared-old-push", c)
 					}
 				}
 			}
@@ -1045,7 +1212,8 @@ func runC10(ctx *Ctx, t *xt.T) (*xt.T, Verdict) {
 		return obs, *v
 	}
 	// frame + reporting for fetch: every destination gets exactly the value the rule gives it, independently
-	if c.Kind == 0 && outcome != 2 {
+	if (c.Kind == 0 || c.Kind == 3) && outcome != 2 {
+		// (for a pull this judges the fetch half: the destinations below are never the pulled branch)
 		expectRej := 0
 		for _, s := range c.Specs {
 			for _, e := range c.RRefs {
@@ -1060,6 +1228,9 @@ func runC10(ctx *Ctx, t *xt.T) (*xt.T, Verdict) {
 					dst = s.Dst
 				} else {
 					continue
+				}
+				if c.Kind == 3 && dst == "heads/"+c.Branch {
+					continue // the pulled branch itself: the merge half moves it on
 				}
 				want := nv
 				if b, ok := lBefore[dst]; ok && b.Val != nv {
